@@ -8,7 +8,7 @@ for n in $names; do
   d=seeded/$n; id=${n%%-*}
   [ -f $d/check ] && id=$(cat $d/check)   # the check that catches it when it is not the property's own (cross-property detection)
   [ -f $d/patch.diff ] || continue
-  if ! git -C /repo apply --check $d/patch.diff 2>/dev/null; then
+  if ! git -C /repo apply --check /verif/$d/patch.diff 2>/dev/null; then
     echo "{\"seed\": \"$n\", \"head\": \"$(git -C /repo rev-parse --short HEAD)\", \"applies\": false}" > $d/detection.json; echo "$n: patch does not apply to HEAD"; continue
   fi
   out=$(MUTANT_LINES=1 MUTANT_COLS=300 scripts/mutant.sh $d/patch.diff $id quick 2>&1)
@@ -22,16 +22,4 @@ json.dump({"seed": n, "applies": True, "check": (open(f"/verif/seeded/{n}/check"
 PY
   echo "$n: exit=$code $key"
 done
-python3 - <<'PY'
-import json, glob, os
-rows = []
-for f in sorted(glob.glob('/verif/seeded/C*/detection.json'), key=lambda p: (p.split('/')[-2].split('-')[0], int(p.split('/')[-2].split('-')[1]))):
-    d = json.load(open(f)); m = {}
-    try: m = json.load(open(os.path.dirname(f) + '/meta.json'))
-    except Exception: pass
-    rows.append((d['seed'], (m.get('title') or '')[:110].replace('|', '/'), 'does not apply' if not d.get('applies') else ('caught' if d.get('caught') else 'MISSED'), (d.get('first_violation_key') or '')[:90].replace('|', '/')))
-with open('/verif/seeded/MATRIX.md', 'w') as o:
-    o.write('# Independently seeded property-breaking changes vs. the quick checks\n\n| seed | change | result | first violation key |\n|---|---|---|---|\n')
-    for r in rows: o.write('| %s | %s | %s | `%s` |\n' % r)
-print(open('/verif/seeded/MATRIX.md').read()[-1500:])
-PY
+python3 /verif/scripts/seed_matrix_md.py
